@@ -46,7 +46,7 @@ for pid in sorted(os.listdir(SRC)):
 mdp = os.path.join(DST, "MATRIX.md")
 md = open(mdp).read()
 md = md.split("\n## Round 4")[0].rstrip("\n") + "\n"
-md += "\n## Round 4 (one change per property for ten properties; state kept between calls, caches, in-place updates of shared arrays)\n\n"
+md += "\n## Round 4 (one change per property for fourteen properties: ten, then C03 C09 C17 C20; state kept between calls, caches, in-place updates of shared arrays)\n\n"
 md += "Quick tier, machinery as committed after the round (the obligations added because of this round are listed in DESIGN.md section 10).\n\n"
 md += "| change | what it does | checks run against it (quick tier) | reported as VIOLATION |\n|---|---|---|---|\n"
 for r in rows:
